@@ -89,14 +89,21 @@ func (c *BaseTableMetaCache) Init(ctx context.Context) error {
 // refresh
 func (c *BaseTableMetaCache) refresh(ctx context.Context) {
 	f := func() {
-		if c.db == nil || c.cfg == nil || c.cache == nil || len(c.cache) == 0 {
+		if c.db == nil || c.cfg == nil {
 			return
 		}
 
+		// snapshot the table names under the lock: GetTableMeta and scanExpire write the map concurrently
+		c.lock.RLock()
 		tables := make([]string, 0, len(c.cache))
 		for table := range c.cache {
 			tables = append(tables, table)
 		}
+		c.lock.RUnlock()
+		if len(tables) == 0 {
+			return
+		}
+
 		conn, err := c.db.Conn(ctx)
 		if err != nil {
 			return
